@@ -173,6 +173,12 @@ def check(case, ctx):
         return [{'what': 'number of languages written differs', 'writer': writer,
                  'expected': len(want_langs), 'got': len(out_langs), 'output_head': out[:600]}]
     res = 40000 if writer == 'MicroDVDWriter' else 1000
+    if all(ol is not None for ol, _ in out_langs) and \
+            sorted(str(ol) for ol, _ in out_langs) == sorted(l['lang'] for l in want_langs) and \
+            len({l['lang'] for l in want_langs}) == len(want_langs):
+        # labelled languages are matched by their label: the order of the languages is C14's clause
+        by_label = {ol: cues for ol, cues in out_langs}
+        out_langs = [(l['lang'], by_label[l['lang']]) for l in want_langs]
     for (olang, cues), l in zip(out_langs, want_langs):
         runs = W.caption_runs(l['captions'], res, merging=writer in W.MERGING,
                               splitting=writer == 'WebVTTWriter')
